@@ -7,10 +7,11 @@
      no_ref_b s           no "${" in s has a "}" after it (no complete reference)
      no_dd s              no "$$" in s
      tok, flatten, sem    the token grammar (char | '}' | "$$" | lone '$' | "${name}"), its text, its meaning
-     wf                   well-formed token list whose references are resolvable to '$'-free text
+     wf                   well-formed token list whose references are recognised and resolvable to the text [val n]
+     plain                the texts of the references contain no '$' (flat theorem only)
      anchored             the token list cannot shrink to one bare reference
      inert                a value without '$' and without expandedValue nodes *)
-From Verif Require Import Common.Base C12.Model C12.Proofs1 C12.Proofs2 C12.Proofs3 C12.Proofs4 C12.Proofs5 C12.Proofs6.
+From Verif Require Import Common.Base C12.Model C12.Proofs1 C12.Proofs2 C12.Proofs3 C12.Proofs4 C12.Proofs5 C12.Proofs6 C12.Proofs7.
 From Coq Require Import Ascii.
 
 (* ================= clause 1: recursive right-biased merge ================= *)
@@ -121,21 +122,43 @@ Print Assumptions dollar_dollar.
 (* CENTRAL: on every well-formed token string resolution is the token-by-token meaning:
    char -> itself, "$$" -> "$", lone '$' -> "$", "${name}" -> the provider's text *)
 Theorem expansion_refines_tokens : forall def retrieve val ts,
-  wf def retrieve val ts -> anchored val ts -> nrefs ts < 1000 ->
+  wf def retrieve val ts -> plain val ts -> anchored val ts -> nrefs ts < 1000 ->
   resolve_string def retrieve (flatten ts) = Ok (CStr (sem val ts)).
 Proof. exact tokens_main. Qed.
 Print Assumptions expansion_refines_tokens.
 
+(* NESTED: provider texts that themselves contain references.  [txt n] = the token list of the text the
+   provider returns for n; [good d ts]: every provider text reachable from ts within depth d is a well-formed
+   token string not ending in a lone '$', and no reference sits deeper than d (so the reachable reference
+   graph is acyclic); [cost d ts] = number of reference nodes of the full expansion tree (the model's measure:
+   each round of expandValueRecursively removes at least one); [mean d ts] = the recursive token meaning
+   (meaning of a reference = meaning of its provider's text). *)
+Theorem expansion_refines_tokens_nested : forall def retrieve txt d ts,
+  wf def retrieve (nval txt) ts -> good def retrieve txt d ts -> has_text ts = true ->
+  cost txt d ts < 1000 ->
+  resolve_string def retrieve (flatten ts) = Ok (CStr (mean txt d ts)).
+Proof. exact nested_main. Qed.
+Print Assumptions expansion_refines_tokens_nested.
+
+(* the measure bounds the rounds: fuel cost+1 is enough, whatever the 1000 of the code *)
+Theorem nested_rounds_bounded_by_cost : forall def retrieve txt d ts,
+  wf def retrieve (nval txt) ts -> good def retrieve txt d ts -> has_text ts = true ->
+  exists s, expand_rec def retrieve (S (cost txt d ts)) (CStr (flatten ts)) = Ok (CStr s) /\
+            unescape s = mean txt d ts.
+Proof. exact nested_rounds_within_cost. Qed.
+Print Assumptions nested_rounds_bounded_by_cost.
+
 (* without the bound the statement is false: 1000 distinct resolvable references are refused *)
 Theorem expansion_refines_tokens_unbounded_refuted : exists def retrieve val ts,
-  wf def retrieve val ts /\ has_text ts = true /\ nrefs ts = 1000 /\
+  wf def retrieve val ts /\ plain val ts /\ has_text ts = true /\ nrefs ts = 1000 /\
   resolve_string def retrieve (flatten ts) = Err [ETooMany].
 Proof. exact many_refs_l. Qed.
 Print Assumptions expansion_refines_tokens_unbounded_refuted.
 
 (* an escaped reference "$${n}" is kept as the text "${n}" wherever it stands *)
 Theorem escaped_ref_kept : forall def retrieve val pre n post,
-  wf def retrieve val (pre ++ esc_ref n ++ post) -> nrefs (pre ++ esc_ref n ++ post) < 1000 ->
+  wf def retrieve val (pre ++ esc_ref n ++ post) -> plain val (pre ++ esc_ref n ++ post) ->
+  nrefs (pre ++ esc_ref n ++ post) < 1000 ->
   resolve_string def retrieve (flatten pre ++ cDollar :: ref_text n ++ flatten post)
   = Ok (CStr (sem val pre ++ ref_text n ++ sem val post)).
 Proof. exact escaped_ref_kept_l. Qed.
